@@ -624,6 +624,49 @@ def native_sweep(seed):
                     stored = getattr(o, "_" + attr, None)
                     if stored is not None and isinstance(stored, np.ndarray) and np.shares_memory(stored, passed):
                         bad.append(f"{cname}.{attr} = <{vname}>: stored value shares memory with the caller's array (not an independent copy)")
+    # TriangularMesh takes vertices and faces only through its constructor; a few geometry cases of bodies made of triangles
+    V = [(0, 0, 0), (1, 0, 0), (0, 1, 0), (0, 0, 1)]
+    F = [(0, 2, 1), (0, 1, 3), (1, 2, 3), (0, 3, 2)]
+    tm_cases = {
+        "valid": (V, F, True), "vertices (4,2)": (np.ones((4, 2)), F, False), "vertices (3,)": ((1, 2, 3), F, False), "faces (4,2)": (V, np.zeros((4, 2), dtype=int), False),
+        "faces 'str'": (V, "abc", False), "vertices None": (None, F, False),
+        "faces index beyond the vertices": (V, [(0, 2, 1), (0, 1, 3), (1, 2, 3), (0, 3, 7)], False),
+        "faces with a non-integer index 2.5": (V, [(0, 2, 1), (0, 1, 3), (1, 2, 3), (0, 3, 2.5)], False),
+    }
+    for vname, (vv, ff, good) in tm_cases.items():
+        runs += 1
+        try:
+            o = magpy.magnet.TriangularMesh(vertices=vv, faces=ff, polarization=(.1, .2, .3))
+            accepted = True
+        except (MagpylibBadUserInput, MagpylibMissingInput):  # both are the library's own input errors
+            accepted = False
+        except Exception as e:  # pylint: disable=broad-except
+            bad.append(f"TriangularMesh.faces/vertices = <{vname}>: raises {type(e).__name__} instead of the library's input error")
+            continue
+        if accepted and not good:
+            back = np.asarray(o.faces, dtype=float)
+            if not np.array_equal(back, np.asarray(ff, dtype=float)):
+                bad.append(f"TriangularMesh.faces/vertices = <{vname}>: accepted and silently truncated (read back {back[-1].tolist()})")
+            else:
+                bad.append(f"TriangularMesh.faces/vertices = <{vname}>: accepted although the documented format excludes it")
+        if not accepted and good:
+            bad.append(f"TriangularMesh.faces/vertices = <{vname}>: rejected although it has the documented format")
+        if accepted and good:
+            try:
+                magpy.getB(o, (1.1, 2.2, 3.3))
+            except Exception as e:  # pylint: disable=broad-except
+                bad.append(f"TriangularMesh <{vname}>: accepted, but the field computation later fails with {type(e).__name__}")
+    for cname, verts in (("Tetrahedron", [(0, 0, 0), (1, 0, 0), (0, 1, 0), (1, 1, 0)]), ("Tetrahedron", [(0, 0, 0)] * 4)):
+        runs += 1
+        try:
+            o = magpy.magnet.Tetrahedron(vertices=verts, polarization=(.1, .2, .3))
+        except MagpylibBadUserInput:
+            continue
+        try:
+            with np.errstate(all="ignore"):
+                magpy.getB(o, (1.1, 2.2, 3.3))
+        except Exception as e:  # pylint: disable=broad-except
+            bad.append(f"{cname}.vertices = <zero volume {verts[3]}>: accepted, but the field computation later fails with {type(e).__name__}")
     return runs, bad
 
 
